@@ -259,7 +259,7 @@ def fn_special(case):
 
 def plan(tier):
     nways = len(_ways())
-    k = 3 if tier == "quick" else 5
+    k = 4 if tier == "quick" else 5
     if tier == "quick":
         first = dict(kind="space", name="every-code-point-core", space=CodePoints(),
                      fn=fn_codepoint_core, execs=len(CORE),
